@@ -82,6 +82,10 @@ pub struct FnSpec {
     pub name: String,
     pub props: Vec<Prop>,
     pub body: Vec<Stmt>,
+    /// `enter_on_poll = true` on a future that is traced without the `async` keyword
+    /// (async-trait method, hand-written `Box::pin` tail)
+    #[serde(default)]
+    pub eop: bool,
 }
 
 fn stmt(depth: u32, is_async: bool) -> BoxedStrategy<Stmt> {
@@ -148,7 +152,8 @@ fn spec() -> BoxedStrategy<FnSpec> {
     .prop_map(|(kind, args, ret, naming, name, mut props, body)| {
         // combinations the macro documents as rejected are not generated
         let mut naming = naming;
-        if kind == Kind::AsyncEop {
+        let eop = matches!(kind, Kind::AsyncTrait | Kind::BoxPinTail) && name.len() % 3 == 0;
+        if kind == Kind::AsyncEop || eop {
             props.clear(); // enter_on_poll cannot be used with properties
         }
         if matches!(kind, Kind::AsyncTrait | Kind::BoxPinTail) && naming == 0 {
@@ -189,7 +194,7 @@ fn spec() -> BoxedStrategy<FnSpec> {
         // unique keys (duplicate keys are rejected by the macro)
         let mut seen = std::collections::HashSet::new();
         props.retain(|p| seen.insert(p.key.clone()));
-        FnSpec { id: 0, kind, args, ret, naming, name, props, body }
+        FnSpec { id: 0, kind, args, ret, naming, name, props, body, eop }
     })
     .boxed()
 }
@@ -404,7 +409,7 @@ fn render_fn(s: &FnSpec, annotated: bool, before: &[FnSpec]) -> String {
             2 => margs.push("short_name = true".into()),
             _ => {}
         }
-        if s.kind == Kind::AsyncEop {
+        if s.kind == Kind::AsyncEop || s.eop {
             margs.push("enter_on_poll = true".into());
         }
         if !s.props.is_empty() {
@@ -649,7 +654,7 @@ fn main() {
             s.naming,
             lit(&s.name),
             is_async,
-            s.kind == Kind::AsyncEop,
+            s.kind == Kind::AsyncEop || s.eop,
             s.props.len(),
             s.kind,
             s.id,
